@@ -16,6 +16,7 @@ def determinism(nseeds=40, props=None, jobs=None):
     """every case is executed twice in separate fresh processes (and at two worker counts); digests must agree"""
     from .check import Ctx
     bad = 0
+    badr = 0
     total = 0
     for name in props or PROPS_WITH_SMOKE:
         try:
@@ -26,16 +27,23 @@ def determinism(nseeds=40, props=None, jobs=None):
             continue
         ctx = Ctx(prop, 'quick', 12345, 16)
         cases = prop.smoke_cases(ctx, nseeds)
-        r1 = engine.run_batch(prop, cases, nproc=16)
+        r1 = engine.run_batch(prop, [dict(c, want_decisions=True) for c in cases], nproc=16)
         r2 = engine.run_batch(prop, cases, nproc=3)
-        for c, a, b in zip(cases, r1, r2):
+        # replay fidelity: the recorded decision list, replayed strictly as a script, must give the very same execution
+        scripted = [dict(c, script=engine.unrle(a.get('decisions') or []), lenient=False) for c, a in zip(cases, r1)]
+        r3 = engine.run_batch(prop, scripted, nproc=16)
+        for c, a, b, s in zip(cases, r1, r2, r3):
             total += 1
             if a.get('digest') != b.get('digest') or a.get('outcome') != b.get('outcome'):
                 bad += 1
                 if bad <= 3:
                     print('NONDETERMINISTIC', prop.ID, json.dumps(c)[:300], a.get('digest'), b.get('digest'), a.get('outcome'), b.get('outcome'))
-    print(f'determinism: {total} cases x 2 executions, {bad} divergences')
-    return bad == 0
+            if a.get('digest') != s.get('digest') or a.get('outcome') != s.get('outcome'):
+                badr += 1
+                if badr <= 3:
+                    print('REPLAY-DIVERGES', prop.ID, json.dumps(c)[:300], a.get('digest'), s.get('digest'), a.get('outcome'), s.get('outcome'))
+    print(f'determinism: {total} cases x 2 executions, {bad} divergences; scripted replay of the recorded decisions: {badr} divergences')
+    return bad == 0 and badr == 0
 
 
 def main():
